@@ -113,6 +113,33 @@ Section Bands.
     unfold r_delay, r_term, r_out_index, attn, out_dirs. rewrite Hrd, Hatt, HE, geo_center, geo_wall.
     destruct Hgeo as (_ & _ & _ & _ & _ & _ & _ & _ & Ho). now rewrite Ho.
   Qed.
+
+  (** receiver curve (mono, with or without direct sound): band b of the multi-band run is the
+      single-band curve *)
+  Theorem mono_band {RL : RingLaws T} tm (E E' : @arr4 T) (s s' : @source T) r direct rdf rdf' t :
+    (forall k d u, k < s_np sc -> get4 E k d b u = get4 E' k d b' u) ->
+    src_pos s = src_pos s' ->
+    match rdf, rdf' with
+    | None, None => True
+    | Some f, Some f' => nthT f b = nthT f' b'
+    | _, _ => False
+    end ->
+    b < s_nb sc -> b' < s_nb sc' -> t < n_samples tm ->
+    get2 (mono sc tm E s r direct rdf) b t = get2 (mono sc' tm E' s' r direct rdf') b' t.
+  Proof.
+    intros HE Hp Hrdf Hb Hb' Ht. pose proof Hgeo as (Hnp & _).
+    assert (Hm : get2 (mono_of sc tm (patchwise sc tm E r)) b t =
+                 get2 (mono_of sc' tm (patchwise sc' tm E' r)) b' t).
+    { rewrite !mono_is_sum by assumption. rewrite <- Hnp. apply sumf_ext. intros k Hk.
+      apply in_seq in Hk. apply patchwise_band; try assumption; try lia.
+      intros d u. apply HE. lia. }
+    unfold mono. destruct direct; [|exact Hm].
+    rewrite !get2_tab by assumption. rewrite Hm.
+    assert (Hbin : direct_bin tm s r = direct_bin tm s' r) by (unfold direct_bin, direct_r; now rewrite Hp).
+    rewrite Hbin. destruct (t =? direct_bin tm s' r); [|reflexivity]. f_equal.
+    destruct Hband as [Hatt _]. unfold direct_val, direct_r, attn. rewrite Hp, Hatt.
+    destruct rdf, rdf'; try contradiction; [now rewrite Hrdf|reflexivity].
+  Qed.
 End Bands.
 
 (** ** C10: exp(-m d) on every leg *)
